@@ -29,6 +29,7 @@ from common import clist, cfloat, cpair, cn, cz, cnat, copt
 THEOREMS = [
     'C03_box_facet_k',
     'C03_box_inside',
+    'C03_box_general_inside',
     'C03_rpp_facet_k',
     'C03_rpp_inside',
     'C03_sph_facet_k',
@@ -62,6 +63,7 @@ THEOREMS = [
     'C03_trc_equal_radii_error',
     'C03_sides_pm1',
     'C03_number_one',
+    'C03_number_items_distinct',
     'C03_expand_macro_den',
     'C03_expand_facet_zero_is_last',
 ]
